@@ -975,6 +975,8 @@ func seq(seq MalType) (MalType, error) {
 			new_slc = append(new_slc, ch)
 		}
 		return List{Val: new_slc}, nil
+	case nil:
+		return nil, nil
 	}
 	return nil, errors.New("seq requires string or list or vector or nil")
 }
